@@ -1,7 +1,7 @@
 """C09 — dictionary frames decode correctly; a missing dictionary is an error (structural clauses)."""
 from .. import flow, hir as H, hq, lin as L, mir as M
 from ..core import Anchor
-from ..rules import bounds, cover
+from ..rules import bounds, cover, dom
 from . import c07
 
 CONFIGS_QUICK = ["ws"]
@@ -278,6 +278,93 @@ def run(ctx):
         ctx.check(okw, R5, "repeat_from_dict::window-test", body["file"],
                   "dictionary access only while total output <= window size; otherwise OffsetTooBig")
     ctx.guard(R5, "repeat_from_dict", reach)
+
+    # (e2) the counter the window test reads never runs ahead of the bytes actually appended: an over-count makes the
+    # decoder believe the output left the window too early and refuse valid matches into the dictionary
+    R6 = "C09.acct.window-counter"
+
+    def counter():
+        from .. import paths as P
+        from ..rules import bounds as _b
+        DBp = "ruzstd::decoding::decode_buffer::DecodeBuffer"
+        w = dom.field_writers(ctx, DBp + ".total_output_counter")
+        allowed = {DBp + "::new", DBp + "::reset", DBp + "::push", DBp + "::repeat", DBp + "::repeat_from_dict"}
+        ctx.check(set(w) <= allowed and {DBp + "::push", DBp + "::repeat", DBp + "::repeat_from_dict"} <= set(w), R6, "writers", "",
+                  "functions that advance the output counter", observed=sorted(w), expected=sorted(allowed))
+        n_paths = 0
+        for fn in ("push", "repeat", "repeat_from_dict"):
+            b = ctx.hir(DBp + "::" + fn)
+            ix = hq.Index(b)
+            lin = _b.make_lin(ix)
+            c = ix.canon
+
+            def interesting(n):
+                k = n.get("k")
+                if k == "AssignOp" and c(n["l"]) == "self.total_output_counter":
+                    return True
+                if k == "Assign" and c(n["l"]) == "self.total_output_counter":
+                    return True
+                if k == "MethodCall":
+                    cal = H.strip_generics(H.callee(n) or "")
+                    if cal.startswith("ruzstd::decoding::ringbuffer::RingBuffer::extend") and c(n["recv"]) == "self.buffer":
+                        return True
+                    if cal in (DBp + "::repeat", DBp + "::repeat_from_dict", DBp + "::repeat_in_chunks"):
+                        return True
+                return False
+            try:
+                pths = P.enumerate_paths(b["body"], interesting)
+            except P.Unsupported as e:
+                ctx.undecided(R6, fn + "::paths", b["file"], "paths not enumerable: %s" % e)
+                continue
+            for i_, pth in enumerate(pths):
+                if pth.end in ("error", "diverge"):
+                    continue
+                if pth.value is not None and ix.err_valued(pth.value):
+                    continue                      # the frame is abandoned on an error
+                inc, app = ({}, 0), ({}, 0)
+                ok_events = True
+                desc = []
+                for ev in pth.events:
+                    if ev.get("k") == "AssignOp" and ev["op"] == "+=":
+                        a = lin.of(ev["r"])
+                        inc = L.add(inc, a)
+                        desc.append("counter += " + L.show(a))
+                    elif ev.get("k") in ("Assign", "AssignOp"):
+                        ok_events = False
+                        desc.append("counter written otherwise: " + H.show(ev)[:60])
+                    else:
+                        cal = H.strip_generics(H.callee(ev) or "")
+                        nm = cal.split("::")[-1]
+                        if nm == "extend":
+                            a = lin.of({"k": "MethodCall", "name": "len", "args": [], "recv": ev["args"][0], "ty": "usize"})
+                            app = L.add(app, a)
+                            desc.append("append " + L.show(a))
+                        elif nm in ("extend_from_within_unchecked", "extend_from_within_unchecked_branchless", "extend_from_within"):
+                            a = lin.of(ev["args"][1])
+                            app = L.add(app, a)
+                            desc.append("append(within) " + L.show(a))
+                        elif nm in ("repeat", "repeat_from_dict", "repeat_in_chunks"):
+                            a = lin.of(ev["args"][1])
+                            app = L.add(app, a)
+                            desc.append("%s appends %s" % (nm, L.show(a)))
+                            if nm != "repeat_in_chunks":
+                                inc = L.add(inc, a)          # callee summary: counter grows by at most what it appends
+                        else:
+                            ok_events = False
+                            desc.append("unrecognised buffer growth: " + cal)
+                facts = []
+                for kind, node, pos in pth.conds:
+                    if kind == "if":
+                        facts += L.fact_from_cond(lin, node, pos)
+                goal = L.sub(app, inc)
+                ent, _ = L.entails(goal, facts)
+                n_paths += 1
+                ctx.check(ok_events and ent, R6, "%s::path-%d::counter-not-ahead-of-output" % (fn, i_), b["file"],
+                          "on this path the output counter grows by more than the bytes appended (appended - counted = %s is not "
+                          "entailed >= 0): the window test of repeat_from_dict would refuse valid matches into the dictionary" % L.show(goal),
+                          observed=desc)
+        ctx.floor(R6, n_paths, 6, "counter/append paths")
+    ctx.guard(R6, "counter", counter)
 
 
 def _inline_local(ix, g):
